@@ -17,12 +17,13 @@ structure FInv (s : S) : Prop where
   s0Per : s.start0 ≤ s.persisted
   s0Sess : s.start0 ≤ s.sessionStart
   allLt : ∀ i ∈ s.all, s.start0 ≤ i ∧ i < s.high
+  accEq : s.pos = s.persisted + s.accSince
 
 theorem finv_init (n start : Nat) (h : start ≤ n) : FInv (init n start) := by
   constructor <;> simp [init, h]
 
 theorem finv_restart (s : S) (h : FInv s) : FInv (restart s) := by
-  obtain ⟨a1, a2, a3, a4, a5, a6, a7, a8, a9, a10, a11⟩ := h
+  obtain ⟨a1, a2, a3, a4, a5, a6, a7, a8, a9, a10, a11, a12⟩ := h
   constructor <;> simp only [restart]
   · exact Nat.le_refl _
   · omega
@@ -34,6 +35,7 @@ theorem finv_restart (s : S) (h : FInv s) : FInv (restart s) := by
   · exact a9
   · exact a9
   · exact a11
+  · rfl
 
 theorem finv_step (s : S) (l : L) (h : FInv s) : FInv (step codeCfg s l) := by
   cases l with
@@ -41,22 +43,23 @@ theorem finv_step (s : S) (l : L) (h : FInv s) : FInv (step codeCfg s l) := by
   | qServer => exact h
   | qEmpty => exact h
   | persist =>
-    obtain ⟨a1, a2, a3, a4, a5, a6, a7, a8, a9, a10, a11⟩ := h
-    exact ⟨a1, a2, a3, a4, by simp only [step]; omega, a6, a7, a8, by simp only [step]; omega, a10, a11⟩
+    obtain ⟨a1, a2, a3, a4, a5, a6, a7, a8, a9, a10, a11, a12⟩ := h
+    exact ⟨a1, a2, a3, a4, by simp only [step]; omega, a6, a7, a8, by simp only [step]; omega, a10, a11,
+      by simp only [step]; omega⟩
   | stop =>
     simp only [step]
     apply finv_restart
-    obtain ⟨a1, a2, a3, a4, a5, a6, a7, a8, a9, a10, a11⟩ := h
-    exact ⟨a1, a2, a3, a4, by simp only []; omega, a6, a7, a8, by simp only []; omega, a10, a11⟩
+    obtain ⟨a1, a2, a3, a4, a5, a6, a7, a8, a9, a10, a11, a12⟩ := h
+    exact ⟨a1, a2, a3, a4, by simp only []; omega, a6, a7, a8, by simp only []; omega, a10, a11, by simp only []; omega⟩
   | graceful =>
     simp only [step]
     apply finv_restart
-    obtain ⟨a1, a2, a3, a4, a5, a6, a7, a8, a9, a10, a11⟩ := h
-    exact ⟨a1, a2, a3, a4, by simp only []; omega, a6, a7, a8, by simp only []; omega, a10, a11⟩
+    obtain ⟨a1, a2, a3, a4, a5, a6, a7, a8, a9, a10, a11, a12⟩ := h
+    exact ⟨a1, a2, a3, a4, by simp only []; omega, a6, a7, a8, by simp only []; omega, a10, a11, by simp only []; omega⟩
   | crash => simp only [step]; exact finv_restart s h
   | grow k =>
-    obtain ⟨a1, a2, a3, a4, a5, a6, a7, a8, a9, a10, a11⟩ := h
-    exact ⟨a1, a2, by simp only [step]; omega, a4, a5, a6, a7, by simp only [step]; omega, a9, a10, a11⟩
+    obtain ⟨a1, a2, a3, a4, a5, a6, a7, a8, a9, a10, a11, a12⟩ := h
+    exact ⟨a1, a2, by simp only [step]; omega, a4, a5, a6, a7, by simp only [step]; omega, a9, a10, a11, a12⟩
   | page k acc =>
     simp only [step]
     by_cases hk : min k (s.n - s.pos) = 0
@@ -66,7 +69,7 @@ theorem finv_step (s : S) (l : L) (h : FInv s) : FInv (step codeCfg s l) := by
       | false => simp only [codeCfg, Bool.false_eq_true, if_false, if_true]; exact h
       | true =>
         simp only [if_true]
-        obtain ⟨a1, a2, a3, a4, a5, a6, a7, a8, a9, a10, a11⟩ := h
+        obtain ⟨a1, a2, a3, a4, a5, a6, a7, a8, a9, a10, a11, a12⟩ := h
         have hk' : min k (s.n - s.pos) ≤ s.n - s.pos := Nat.min_le_right _ _
         constructor <;> simp only []
         · omega
@@ -93,6 +96,23 @@ theorem finv_step (s : S) (l : L) (h : FInv s) : FInv (step codeCfg s l) := by
           rcases hi with hi | hi
           · have := a11 i hi; omega
           · omega
+        · omega
+  | crashAfterAccept k =>
+    simp only [step]
+    apply finv_restart
+    obtain ⟨a1, a2, a3, a4, a5, a6, a7, a8, a9, a10, a11, a12⟩ := h
+    have hk' : min k (s.n - s.pos) ≤ s.n - s.pos := Nat.min_le_right _ _
+    refine ⟨a1, a2, a3, a4, a5, ?_, by simp only []; omega, by simp only []; omega, a9, a10, ?_, a12⟩
+    · intro i h1 h2
+      simp only [List.mem_append, List.mem_range'_1]
+      by_cases hi : i < s.high
+      · exact Or.inl (a6 i h1 hi)
+      · right; simp only [] at h2; omega
+    · intro i hi
+      simp only [List.mem_append, List.mem_range'_1] at hi
+      rcases hi with hi | hi
+      · have := a11 i hi; simp only []; omega
+      · simp only []; omega
 
 theorem finv_run : ∀ (tr : List L) (s : S), FInv s → FInv (run codeCfg s tr)
   | [], s, h => by simpa [run] using h
@@ -104,5 +124,36 @@ theorem step_start0 (c : Cfg) (s : S) (l : L) : (step c s l).start0 = s.start0 :
 theorem run_start0 (c : Cfg) : ∀ (tr : List L) (s : S), (run c s tr).start0 = s.start0
   | [], s => rfl
   | l :: ls, s => by simp only [run]; rw [run_start0 c ls, step_start0]
+
+/-! ## quiet periods: queries answer, the sink accepts -/
+
+/-- `m` iterations in which the query answers a page of up to `k` events and the sink accepts it -/
+theorem run_pages (c : Cfg) (k : Nat) : ∀ (m : Nat) (s : S), s.pos ≤ s.n →
+    (run c s (List.replicate m (.page k true))).pos = min (s.pos + m * k) s.n ∧
+    (run c s (List.replicate m (.page k true))).n = s.n
+  | 0, s, h => by simp [run]; exact (Nat.min_eq_left h).symm
+  | m+1, s, h => by
+    simp only [List.replicate_succ, run]
+    have hstep : (step c s (.page k true)).pos = min (s.pos + k) s.n ∧ (step c s (.page k true)).n = s.n := by
+      obtain ⟨d, hd⟩ : ∃ d, s.n = s.pos + d := ⟨s.n - s.pos, by omega⟩
+      simp only [step, hd, Nat.add_sub_cancel_left]
+      by_cases hk : min k d = 0
+      · rw [if_pos hk]
+        refine ⟨?_, by first | rfl | exact hd | simp [hd]⟩
+        have : k = 0 ∨ d = 0 := by
+          rw [Nat.min_def] at hk; split at hk <;> omega
+        rw [Nat.min_def]; split <;> omega
+      · rw [if_neg hk]
+        simp only [if_true]
+        refine ⟨?_, by first | rfl | exact hd | simp [hd]⟩
+        rw [Nat.min_def, Nat.min_def]
+        split <;> split <;> omega
+    have ih := run_pages c k m (step c s (.page k true)) (by rw [hstep.1, hstep.2]; omega)
+    rw [ih.1, ih.2, hstep.1, hstep.2]
+    refine ⟨?_, rfl⟩
+    rw [Nat.add_mul, Nat.one_mul]
+    simp only [Nat.min_def]
+    repeat' split
+    all_goals omega
 
 end Logrange.Forwarder
